@@ -223,7 +223,7 @@ pub fn signals_of_opts(avs: &[Av], pad_sigma: f64, crosstalk: bool) -> Signals {
 /// the column see peaks on the odd and valleys on the even rows one bin later, and the read-out
 /// window closes right after the hits. The library recovers 16 space points with only two drift
 /// radii - a degenerate geometry for the circle fit.
-pub fn isochronous_column(column: usize, first_row: usize, t0: usize, scale: f64) -> Signals {
+pub fn isochronous_column(column: usize, first_row: usize, t0: usize, scale: f64, n_rows: usize) -> Signals {
     let d = data();
     let mut wires: BTreeMap<usize, Vec<f64>> = BTreeMap::new();
     let len = t0 + 4;
@@ -251,7 +251,7 @@ pub fn isochronous_column(column: usize, first_row: usize, t0: usize, scale: f64
     }
     let mut pads: BTreeMap<(usize, usize), Vec<f64>> = BTreeMap::new();
     let samples = (t0 + 11).min(N_PAD_BINS);
-    for j in 0..17usize {
+    for j in 0..n_rows {
         let row = first_row + j;
         if row >= 576 {
             break;
